@@ -67,3 +67,44 @@ def classify_foreign(fbytes, alphabet):
     if fbytes and all(f >= 128 for f in fbytes):
         return "high-byte"
     return "other"
+
+
+# ---------------------------------------------------------------------------------------------------- row views
+# Model of "an earlier indexing step" on a list of rows (or on one flat sequence), in plain Python list semantics.
+# A view is a list of steps, each step one subscription  a[rows]  or  a[rows, c0:c1]:
+#     {"rows": ["all"] | ["slice", start, stop, step] | ["list", [i, ..]] | ["array", [i, ..]] | ["mask", [0/1, ..]],
+#      "cols": None | [c0, c1]}
+# "list" / "array" (python list / integer ndarray as the subscript) select, reorder and repeat rows, negative
+# numbers count from the end; "mask" keeps the rows whose flag is set; "cols" trims every selected row to r[c0:c1].
+def select_rows(rows, spec):
+    kind = spec[0]
+    if kind == "all":
+        return list(rows)
+    if kind == "slice":
+        return list(rows[slice(spec[1], spec[2], spec[3])])
+    if kind in ("list", "array"):
+        return [rows[i] for i in spec[1]]
+    if kind == "mask":
+        assert len(spec[1]) == len(rows), "a mask has one flag per row"
+        return [r for r, m in zip(rows, spec[1]) if m]
+    raise KeyError(kind)
+
+
+def apply_view(rows, steps):
+    """rows: list of rows (each a list of bytes) -> the rows the view stands for"""
+    rows = [list(r) for r in rows]
+    for st in steps:
+        rows = select_rows(rows, st["rows"])
+        if st.get("cols") is not None:
+            c0, c1 = st["cols"]
+            rows = [r[slice(c0, c1)] for r in rows]
+    return rows
+
+
+def apply_view_flat(data, steps):
+    """the same for one flat sequence of bytes (no column step)"""
+    data = list(data)
+    for st in steps:
+        assert st.get("cols") is None
+        data = select_rows(data, st["rows"])
+    return data
